@@ -13,6 +13,8 @@ CONSTANTS
   Fams = {1, 2}
 INVARIANT ReadIsWrapped
 INVARIANT RoundTrip
+INVARIANT RouteIsTransparent
+INVARIANT RoundTripAnyBinding
 INVARIANT StripIsDeclared
 INVARIANT DiscoveryIsDeclared
 INVARIANT Export
